@@ -38,6 +38,9 @@ def shards(tier, seed):
     for k in range(n):
         for i in range(8):
             out.append(dict(kind="string", n=250, stream=(k, i), version=VERSIONS[i % 2]))
+        for i in range(2):
+            # the same under a schema loaded with a namespace prefix (every tag is written with the prefix)
+            out.append(dict(kind="string", n=150, stream=(k, "ns", i), version=VERSIONS[i % 2], ns="ts:"))
         for i in range(4):
             out.append(dict(kind="sidecar", n=60, stream=(k, i), version=VERSIONS[i % 2]))
         for i in range(4):
@@ -217,11 +220,12 @@ def run_string(shard, rec):
     from hed.errors.error_types import ErrorContext
     rng = rec.rng
     v = shard["version"]
-    schema = env.schema(v)
+    ns = shard.get("ns", "")
+    schema = env.schema(ns + v)
     gen = annot.AnnotGen(schema_xml.load(v), rng)
     defs = []
     for k in range(shard["n"]):
-        if k % 10 == 0:
+        if k % 10 == 0 and not ns:
             gen.make_defs()
             defs = gen.def_strings()
         try:
@@ -229,7 +233,7 @@ def run_string(shard, rec):
         except RuntimeError:
             rec.discard()
             continue
-        texts = [annot.render(items, rng)]
+        texts = [annot.render(items, rng, ns)]
         for kind in rng.sample(annot.MUTATION_KINDS, 4):
             saved = set(gen.used)
             try:
@@ -237,12 +241,22 @@ def run_string(shard, rec):
             except RuntimeError:
                 m = None
             gen.used = saved
-            if m:
+            if m and not ns:
                 texts.append(m["text"])
+            elif m and m["items"] is not None:
+                texts.append(annot.render(m["items"], rng, ns))
+        if gen.ext and k % 2 == 0:
+            # a character that no extension may hold, at a known place inside an extension
+            import copy as _copy
+            it2 = _copy.deepcopy(items)
+            w = gen.spell(rng.choice(gen.ext)) + "/" + rng.choice(["Zzq$ext", "Zz=q", "Qq$", "Zz.dotted$x"])
+            annot._insert_raw(it2, rng, {"t": "tag", "name": w, "suffix": "", "node": None, "role": "raw", "raw": w})
+            texts.append(annot.render(it2, rng, ns))
+            rec.count("string-kind", "bad-character-in-extension" + (" (prefixed)" if ns else ""))
         dd = DefinitionDict(defs, schema) if defs else None
         for text in texts:
             ap = rng.random() < 0.5
-            case = dict(entry="string", schema=v, defs=defs, text=text, allow_placeholders=ap)
+            case = dict(entry="string", schema=ns + v, defs=defs, text=text, allow_placeholders=ap)
             lists = []
             try:
                 for warn in (True, False):
